@@ -164,6 +164,8 @@ func Fix() *Fixture {
 			mk("h2", params.RoleHouse, 5, Unit(3, 2), params.ValidatorOnline, true), // three house validators: the equal split of the role pool leaves a residue
 			mk("h3", params.RoleHouse, 6, Unit(4, 3), params.ValidatorOnline, true),
 			mk("n1", params.RoleSenator, 4, Unit(6, 1), params.ValidatorOffline, false),
+			// z1: a house validator below one stake unit (MinSelfStakes of the house role is 0): Token > 0, Stake == 0
+			mk("z1", params.RoleHouse, 7, Unit(0, 500000000000000000), params.ValidatorOffline, false),
 		}
 		f.D1, f.D2, f.P = mkAcc("D1", 0x21), mkAcc("D2", 0x22), mkAcc("P", 0x23)
 		f.KStore = common.HexToAddress("0xc0de000000000000000000000000000000000001")
